@@ -3210,3 +3210,77 @@ def t_booltext( ctx ):
     else:
         res.ok( src, fn, 'bool_validate gives the truth value of every number and of true / false in any case and padding, and refuses other words ( %d words )' % len( TABLE ))
     return res
+
+
+# ---------------------------------------------------------------------------------------- C12: T-PATHELEMS (a dotted operation path -> segments, element, count)
+
+@rule( 'T-PATHELEMS', props=( 'C12', ), floor=1 )
+def t_pathelems( ctx ):
+    """device.parse_path_elements turns the path of an operation's text - dotted terms, each with an optional [index], the last with an optional
+    range or *count - into segments, first element and count, decided by value: the whole function is evaluated on a table of paths, its calls of
+    parse_path_component evaluated on that function's own source ( T-PATHCOMP decides the terms ).  Only the last term may name several elements;
+    a one-string list is the string; a list of segments is taken as it is"""
+    import json
+    res = Result( 'T-PATHELEMS' )
+    src = ctx.src( DEVICE )
+    fn = src.get( 'parse_path_elements' )
+    comp = src.get( 'parse_path_component' )
+    params = [ a.arg for a in fn.args.args ]
+    cparams = [ a.arg for a in comp.args.args ]
+    if len( params ) != 3 or len( cparams ) != 3:
+        raise AnalysisError( 'parse_path_elements / parse_path_component: expected ( path, elm, cnt ) each, found %s / %s' % ( params, cparams ))
+    strip = lambda f: [ s for s in f.body if not ( isinstance( s, ast.Expr ) and isinstance( s.value, ast.Constant )) ]
+    base = { 'parse_int': lambda x: int( x, 0 ), 'json.loads': json.loads, 'int': int, 'len': len, 'enumerate': enumerate, 'Exception': Exception, 'str': str,
+             'isinstance': isinstance, 'type_str_base': str, 'list': list, 'dict': dict, 'all': all, 'any': any, 'tuple': tuple }
+    def component( *args, **kw ):
+        env = dict( base ); env.update( zip( cparams, list( args ) + [ None ] * ( 3 - len( args ))))
+        for k_, v_ in kw.items():
+            if k_ not in cparams:
+                raise Raises( 'TypeError' )
+            env[k_] = v_
+        out = run_block( strip( comp ), env, ignore_calls=( 'log', ))
+        if out.kind == 'raise':
+            raise Raises( 'AssertionError' )
+        if out.kind != 'return':
+            raise NoFold( 'parse_path_component ended by %s' % out.kind )
+        return out.value
+    S = lambda n: { 'symbolic': n }
+    TABLE = (
+        ( 'Tag',                     ( [ S( 'Tag' ) ], None, None )),
+        ( 'Tag[3]',                  ( [ S( 'Tag' ), { 'element': 3 } ], 3, None )),
+        ( 'Tag.Sub',                 ( [ S( 'Tag' ), S( 'Sub' ) ], None, None )),
+        ( 'Tag.Sub[5].Other[3-4]',   ( [ S( 'Tag' ), S( 'Sub' ), { 'element': 5 }, S( 'Other' ), { 'element': 3 } ], 3, 2 )),
+        ( 'Tag[1].Sub*2',            ( [ S( 'Tag' ), { 'element': 1 }, S( 'Sub' ) ], None, 2 )),
+        ( 'Tag[1-1].Sub',            ( [ S( 'Tag' ), { 'element': 1 }, S( 'Sub' ) ], None, None )),
+        ( 'Tag[1-2].Sub',            'raise' ),
+        ( 'Tag*2.Sub',               'raise' ),
+        ( [ 'Tag[2]' ],              ( [ S( 'Tag' ), { 'element': 2 } ], 2, None )),
+        ( [ { 'class': 1 }, { 'instance': 2 } ], ( [ { 'class': 1 }, { 'instance': 2 } ], None, None )),
+        ( '@2/1/3',                  ( [ { 'class': 2 }, { 'instance': 1 }, { 'attribute': 3 } ], None, None )),
+        ( '@2/1/3[4]*5',             ( [ { 'class': 2 }, { 'instance': 1 }, { 'attribute': 3 }, { 'element': 4 } ], 4, 5 )),
+        ( 42,                        'raise' ),
+        ( [ 'a', 'b' ],              'raise' ),
+    )
+    wrong = []
+    for given, want in TABLE:
+        env = dict( base ); env.update({ params[0]: list( given ) if isinstance( given, list ) else given, params[1]: None, params[2]: None,
+                                         'parse_path_component': component, 'call:parse_path_component': component })
+        try:
+            out = run_block( strip( fn ), env, ignore_calls=( 'log', ))
+            got = 'raise' if out.kind == 'raise' else out.value if out.kind == 'return' else out.kind
+            if isinstance( got, tuple ) and len( got ) == 3:
+                got = ( [ dict( s_ ) for s_ in got[0] ], got[1], got[2] )
+        except Raises as exc:
+            got = 'raise'
+        except NoFold as exc:
+            raise AnalysisError( 'parse_path_elements: outside the modelled subset for %r: %s' % ( given, str( exc )[:80] ))
+        res.cells += 1
+        if got != want:
+            wrong.append(( given, want, got ))
+    if wrong:
+        given, want, got = wrong[0]
+        res.bad( src, fn, 'parse_path_elements( %r ) gives %s, not %s ( %d of %d paths differ )' % ( given, got, want, len( wrong ), len( TABLE )),
+                 'the operation is sent with other segments, another first element or count than its text names' )
+    else:
+        res.ok( src, fn, 'parse_path_elements gives segments, first element and count of every path of the table ( %d paths, 4 refused )' % len( TABLE ))
+    return res
